@@ -67,6 +67,30 @@ def act(cls, extra_locals=None, params=None, **kw):
                  "loop_writeback": {"rule": "{ σ with visited := σ.visited ++ [σ.rule] }"}}, **kw)
 
 
+# ---- loaders of rule.py (Consequent.load, Antecedent.load)
+# Objects: engine = Op.EngineInfo `e`, variable = Op.VarInfo, hedge / term object = the name it was looked up by,
+# `{o.name: o for o in l}` = the list l (get: last entry of the name).  `proposition` is a second reference to the
+# Proposition appended last (alias_last).
+LOAD_PROP = "Py.Load.Proposition"
+LOAD_EXT = [
+    ("self.text", "text", "String", True),
+    ("_0.split()", "(Py.split {0})", "List String", True, ["String"]),
+    ("engine.output_variables", "(Py.Load.outputs e)", "List Op.VarInfo", True),
+    ("engine.variables", "e.vars", "List Op.VarInfo", True),
+    ("{v.name: v for v in _0}", "{0}", "List Op.VarInfo", True, ["List Op.VarInfo"]),
+    ("_0.get(_1)", "(Py.Load.varGet {0} {1})", "Option Op.VarInfo", True, ["List Op.VarInfo", "String"]),
+    ("Proposition(_0)", "({{ variable_ := {0} }} : Py.Load.Proposition)", LOAD_PROP, True, ["Op.VarInfo"]),
+    ("_0 in factory", "(e.hedges.contains {0})", "Bool", True, ["String"]),
+    ("factory.construct(_0)", "{0}", "String", True, ["String"]),
+    ("_0.terms", "{0}.terms", "List String", True, ["Op.VarInfo"]),
+    ("{t.name: t for t in _0}", "{0}", "List String", True, ["List String"]),
+    ("_0.get(_1)", "(Py.Load.termGet {0} {1})", "Option String", True, ["List String", "String"]),
+]
+LOAD_FIELDS = {(LOAD_PROP, "variable"): "Op.VarInfo", (LOAD_PROP, "hedges"): "List String", (LOAD_PROP, "term"): "Option String",
+               ("Py.Load.Operator", "left"): "Py.Load.Expression", ("Py.Load.Operator", "right"): "Py.Load.Expression"}
+LOAD_TRUTHY = {"Option Op.VarInfo": "(Py.Load.varTruthy {0})"}
+# ---- end loaders
+
 DEG = {"activation_degree": "X Rat"}
 HEAP = {"activated": "Nat", "activation_degree": "X Rat", "index": "Nat", "activate": "List (X Rat × Nat)"}
 
@@ -309,6 +333,40 @@ PROFILES = [
                                  ("' '.join(_0)", "(Py.joinSp {0})", "String", True)],
     },
     PARSE_PROFILE,
+    # ---- loaders of rule.py
+    {
+        "name": "Consequent_load", "module": "fuzzylite.rule", "object": "Consequent.load", "file": "CodeLoad",
+        "params": [("e", "Op.EngineInfo"), ("text", "String")],
+        "locals": {"state": "Nat", "conclusions": f"List {LOAD_PROP}", "output_variables": "List Op.VarInfo", "token": "String",
+                   "variable": "Option Op.VarInfo", "hedge": "String", "terms": "List String", "term": "Option String",
+                   "self_conclusions": f"List {LOAD_PROP}"},
+        "alias_last": {"proposition": "conclusions"},
+        "record_fields": LOAD_FIELDS, "truthy": LOAD_TRUTHY, "none_init": ["token"],
+        "externals": LOAD_EXT,
+        "stmt_externals": [("self.unload()", "{{ σ with self_conclusions := [] }}", True),
+                           ("factory = settings.factory_manager.hedge", "σ", True)],
+    },
+    {
+        # the callee `Function.infix_to_postfix` is the parameter `post` (its own tie is `infix_to_postfix`)
+        "name": "Antecedent_load", "module": "fuzzylite.rule", "object": "Antecedent.load", "file": "CodeLoad",
+        "params": [("e", "Op.EngineInfo"), ("post", "String → Py.M String"), ("text", "String")],
+        "locals": {"postfix": "String", "state": "Nat", "stack": "Stack Py.Load.Expression", "variables": "List Op.VarInfo",
+                   "token": "String", "variable": "Option Op.VarInfo", "hedge": "String", "terms": "List String",
+                   "term": "Option String", "operator": "Py.Load.Operator", "self_expression": "Py.Load.Expression"},
+        "alias_last": {"proposition": {"list": "stack", "type": LOAD_PROP, "embed": "(Py.Load.Expression.prop {0})",
+                                       "view": "(Py.Load.Expression.asProp {0})"}},
+        "record_fields": LOAD_FIELDS, "truthy": LOAD_TRUTHY, "none_init": ["token"],
+        "skip_stmts": ["settings.logger.debug(_0)"],
+        "externals": LOAD_EXT + [("Function.infix_to_postfix(_0)", "(post {0})", "String", False, ["String"]),
+                                 ("deque()", "[]", "List Py.Load.Expression", True),
+                                 ("isinstance(_0, Any)", '({0} == "any")', "Bool", True, ["String"]),
+                                 ("Operator(_0)", "({{ name := {0} }} : Py.Load.Operator)", "Py.Load.Operator", True, ["String"]),
+                                 ("operator", "(Py.Load.Expression.ofOp σ.operator)", "Py.Load.Expression", True)],
+        "stmt_externals": [("self.unload()", "{{ σ with self_expression := Py.Load.Expression.none }}", True),
+                           ("factory = settings.factory_manager.hedge", "σ", True),
+                           ("errors = ' '.join((str(element) for element in stack))", "σ", True)],
+    },
+    # ---- end loaders
     act("General"),
     act("First", dict(DEG, activated="Nat"), [("n", "Nat"), ("t", "X Rat")]),
     act("Last", dict(DEG, activated="Nat"), [("n", "Nat"), ("t", "X Rat")]),
@@ -331,4 +389,5 @@ FILES = {
     "CodeEngine": {"imports": ["FlVerif.Op.PyExtEngine"]},
     "CodeConsequent": {"imports": ["FlVerif.Op.PyExtCons"]},
     "CodeWeighted": {"imports": ["FlVerif.Op.PyExtWeighted"]},
+    "CodeLoad": {"imports": ["FlVerif.Op.PyExtLoad"]},  # loaders of rule.py
 }
